@@ -164,10 +164,10 @@ REGISTRY = {
         "assumptions": [EXTERNAL, "completeness is proved for the reference-free caller (T17_complete) and, with the ancestor as reference, true coordinates / alleles / pseudo-genomes under SiteOK (T17_ref_complete, T17_ref_output); other references are decided by oracle runs; the pipeline model is tied to the code by correspondence, not by translation"],
     },
     "C18": {
-        "level": "exploration", "modules": ["SkaModel.Props.C18", "SkaModel.Props.C18Derep", "SkaModel.Props.C17Pipe", "SkaModel.Props.C17Paths"], "gen": ["C18"], "cli": [cli.c18_cli],
+        "level": "proof", "modules": ["SkaModel.Props.C18", "SkaModel.Props.C18Derep", "SkaModel.Props.C17Pipe", "SkaModel.Props.C17Paths", "SkaModel.Props.C18Complete"], "gen": ["C18"], "cli": [cli.c18_cli],
         "rule": "insert extraction and de-replication inputs (shared entry k-mers, equal lengths, reverse-strand twins) vs the model; the reference-free pipeline in-process vs the model on indel-rich families and dense random tables (see C17); CLI: planted isolated indels (length 1-10, >= 4k apart, (k-1)-mers unique per sample), k in {11,15,21,31}, 3-8 samples, threads 1-4; every VCF record checked by substring search (carriers of REF/ALT exactly the genotyped samples, one planted indel each, none twice), recall measured; non-trivial = families that ran",
         "trusted_base": COMMON_TRUST + ["hooked private helpers (feature verif-hooks): extract_middle_bases, dereplicate_indels; the guarded sink record_groups in build_variant_groups"],
-        "assumptions": [EXTERNAL, "recall (>= 90%) and the correspondence of records to planted indels are decided by oracle runs, not by theorem; the pipeline model is tied to the code by correspondence, not by translation"],
+        "assumptions": [EXTERNAL, "T18_complete covers planted indels whose insert can slide by at most k-3 positions; indels with shift k-2 are never reported by the program (the short path is entry -> exit directly): they are the tolerated loss, and the 90% recall over random planted families is measured, not proved; the pipeline model is tied to the code by correspondence, not by translation"],
     },
     "C19": {
         "level": "fault_enumeration", "modules": ["SkaModel.Props.C19", "SkaModel.Props.C19Final"], "gen": [], "cli": [cli.c19_cli],
